@@ -3,7 +3,13 @@
 Decides: (a) the row-selection sites of DELETE and UPDATE use the same per-variant truthiness
 table as SELECT's filter and do not turn an evaluation error into "row not selected";
 (b) the primary-key fast paths probe the hash index with a value that went through the column's
-coercion (the index is keyed by stored SqlValue variants).  Does NOT decide SET evaluation."""
+coercion (the index is keyed by stored SqlValue variants); (c) a fast path that builds a
+one-component key does so only under the test that the primary key has exactly one column, and
+the DELETE and UPDATE key extractors (two copies of one algorithm) decide under the same
+conditions; (d) SET expressions are evaluated against the row as it was before the statement
+(the row handed to eval inside the assignment loop is not written in that loop); (e) no call in
+the storage/executor mutation layer passes old/new (or similarly paired) arguments swapped.
+Does NOT decide expression evaluation itself."""
 from ..engine.facts import callee_name, callee_path
 from ..engine.tables import enum_switches, switch_arm_regions
 from ..engine.callgraph import CallGraph
@@ -70,6 +76,86 @@ def run(ctx):
         if not coerces:
             ctx.finding(f'b/{stmt}/pk-literal-not-coerced', f'{stmt}: the primary-key fast path probes the hash index with the raw WHERE literal; '
                         f'a literal of another numeric type (2.0, a BIGINT) misses a key SELECT\'s comparison would match', u.loc)
+    extra_rules(ctx)
+
+
+def extra_rules(ctx):
+    import re
+    from ..engine.symexpr import Sym
+    from ..engine.cfg import defs_of, op_local, op_place
+    from ..engine.linear import Encoder
+    from . import shared
+    prog = ctx.prog
+    # ---------------------------------------------------------------- (c) one-component key only for one-column keys; sibling agreement
+    ctx.rule('C09.c', 'extract_primary_key_lookup (DELETE and UPDATE copies): every block that builds the lookup key is decided by the test '
+             'len(primary key indices) == 1 (a one-component key addresses a one-column key), and both copies decide under the same set of conditions')
+    cond_sets = {}
+    for stmt, (_user, extractor) in PK_PATHS.items():
+        e = ctx.fn(extractor)
+        sym = Sym(e)
+        blocks = []
+        for bi, b in enumerate(e.blocks):
+            if b['t'].get('cleanup'):
+                continue
+            for st in b['s']:
+                if 'd' in st and st['v']['r'] == 'agg' and st['v'].get('variant') == 'Some' and st['d'][0] == 0:
+                    blocks.append(bi)
+        ctx.require(blocks, f'{extractor}: no `Some(key)` result found')
+        per = []
+        for bi in blocks:
+            conds = shared.deciding_conditions(e, bi, sym)
+            norm = set()
+            for (c, v) in conds:
+                c2 = re.sub(r'\bself\.schema\b', 'schema', c)
+                norm.add((c2, v))
+            per.append(norm)
+            has_len1 = any(re.search(r'len\(.*get_primary_key_indices\(.*\).*\) Eq const\(1\)', c) and v in ('1', 'else:0') for c, v in norm)
+            ctx.instance(f'c/{stmt}/key@{len(per)}', {'rule': 'C09.c', 'fn': extractor, 'single_column_test': has_len1, 'conditions': sorted(c for c, _ in norm)[:12]})
+            if not has_len1:
+                ctx.finding(f'c/{stmt}/single-column-test', f'{stmt}: extract_primary_key_lookup builds a one-component key without testing that the primary '
+                            'key has exactly one column: for a composite key the hash-index probe finds nothing and the statement reports 0 rows '
+                            'while SELECT finds the rows', e.loc)
+        cond_sets[stmt] = sorted(sorted(x) for x in per)
+    if len(cond_sets) == 2 and cond_sets['DELETE'] != cond_sets['UPDATE']:
+        ctx.finding('c/sibling-agreement', 'the DELETE and UPDATE copies of extract_primary_key_lookup decide the fast path under different conditions: '
+                    'the two statements select different rows for the same WHERE clause', ctx.fn(PK_PATHS['DELETE'][1]).loc,
+                    {'DELETE': cond_sets['DELETE'], 'UPDATE': cond_sets['UPDATE']})
+
+    # ---------------------------------------------------------------- (d) SET evaluated on the original row
+    ctx.rule('C09.d', 'ValueUpdater::apply_assignments: the row handed to ExpressionEvaluator::eval inside the assignment loop is not a value '
+             'written inside that loop (SQL: all SET expressions see the row as it was before the UPDATE)')
+    va = ctx.fn(EX + "update::value_updater::ValueUpdater::<'a>::apply_assignments")
+    enc = Encoder(prog, va)
+    loop_of = enc.loop_of_block()
+    defs = defs_of(va)
+    sym = Sym(va)
+    evals = [(i, t) for i, t in va.calls() if re.search(r'::eval(<|$)', callee_name(t) or '') and 'evaluator' in (callee_name(t) or '').lower()]
+    ctx.require(evals, 'apply_assignments: eval call not found')
+    for i, t in evals:
+        L = loop_of.get(i)
+        rl, row = shared.named_root(va, defs, t['args'][-1])
+        written = False
+        if L is not None and rl is not None:
+            body = shared._body(enc, L)
+            for b in body:
+                tt = va.blocks[b]['t']
+                if tt['k'] == 'call' and tt['args']:
+                    l0 = op_local(tt['args'][0])
+                    for (_b, k, v) in defs.get(l0, []):
+                        if k == 'assign' and v['r'] == 'ref' and v.get('mut') and v['p'][0] == rl:
+                            written = True
+                for st in va.blocks[b]['s']:
+                    if 'd' in st and st['d'][0] == rl:
+                        written = True
+        ctx.instance(f'd/eval@{shared._ordinal(va, i)}', {'rule': 'C09.d', 'row_argument': row, 'written_in_loop': written})
+        if written:
+            ctx.finding('d/set-sees-earlier-assignments', f'apply_assignments evaluates SET expressions against `{row}`, which is modified inside the '
+                        'assignment loop: `SET x = y, y = x` no longer swaps, later expressions see earlier assignments', f'{va.file}:{t["l"]}')
+
+    # ---------------------------------------------------------------- (e) swapped arguments in the mutation layer
+    shared.swapped_arguments_rule(ctx, 'C09.e', lambda f: f.nice.startswith('vibesql_storage::table::') or f.nice.startswith('vibesql_storage::database::')
+                                  or f.nice.startswith('vibesql_executor::update::') or f.nice.startswith('vibesql_executor::delete::')
+                                  or f.nice.startswith('vibesql_executor::insert::'), floor=100)
 
 
 def enum_switches_result(prog, fn):
